@@ -288,7 +288,9 @@ def real_funcode(fn, prog, fidx2fid):
 def expectation(run):
     tr = clist(["(%s, %s)" % (clist([cstr(a) for a in ev["args"]]),
                                clist(["(%s, %s)" % (cstr(k), cstr(v)) for k, v in ev["kwargs"]])) for ev in run["trace"]])
-    if run["outcome"] == "ok":
+    if run["outcome"] == "timeout":
+        x = "XTimeout"
+    elif run["outcome"] == "ok":
         x = "(XOk %s)" % clist(["(%s, %s)" % (cstr(k), cstr(v)) for k, v in sorted(run["globals"])])
     else:
         st = run.get("errstack") or []
@@ -323,7 +325,7 @@ def build_case(c):
     return d
 
 
-def coq_eval(ctx, name, cases, want):
+def coq_eval(ctx, name, cases, want, timeout=1500):
     """cases: list of dicts from build_case.  Evaluate the requested checks in Coq; returns list of dict check->string."""
     text = HEADER
     names = []
@@ -347,7 +349,7 @@ def coq_eval(ctx, name, cases, want):
         text += "Definition r%d := Eval vm_compute in %s.\n" % (i, clist(row))
         names.append("r%d" % i)
     text += "Definition ALL := Eval vm_compute in %s.\nPrint ALL.\n" % clist(names)
-    out, rc = ctx.coq_run(name, text, timeout=1500)
+    out, rc = ctx.coq_run(name, text, timeout=timeout)
     if rc != 0:
         raise HarnessError("coq evaluation failed:\n" + out[-3000:])
     m = re.search(r"ALL\s*=\s*(.*?)\s*:\s*list \(list string\)", out, re.S)
@@ -434,6 +436,7 @@ def run(ctx):
     dist = {"static-error": 0, "panic": 0, "timeout": 0, "run": 0, "untranslatable": 0}
     feats = {}
     items = []
+    slow = []      # the real run exceeded its step limit (200000): does the reference terminate?
     for c in cases:
         k = classify(c)
         dist[k] += 1
@@ -441,6 +444,12 @@ def run(ctx):
             feats[f] = feats.get(f, 0) + 1
         if k == "panic":
             ctx.finding("panic", "host panic while executing a generated program: %s" % c["run"].get("errmsg"), {"src": c["src"], "opts": c["opts"]})
+        if k == "timeout":
+            try:
+                slow.append((c, build_case(c)))
+            except Unsupported:
+                dist["untranslatable"] += 1
+            continue
         if k != "run":
             continue
         try:
@@ -459,6 +468,27 @@ def run(ctx):
             tally[w][key] = tally[w].get(key, 0) + 1
             if not (r == "ok" or r == "skip" or r == "oof" or r.startswith("unsup")):
                 bad[w].append((c, r))
+    # Real runs that hit the step limit: a finding when the reference evaluator terminates AND the
+    # model machine running the real bytecode does not terminate within twice the limit either (so the
+    # real code really diverges, it is not just long).  Evaluated one by one, each guarded by a timeout:
+    # such programs can be expensive for any evaluator.
+    slow_tally = {}
+    for c, d in slow[:3]:
+        try:
+            row = coq_eval(ctx, "c01_slow", [d], ["ref", "vm"], timeout=90)[0]
+        except HarnessError:
+            row = ["undecided", "undecided"]
+        verdict = "undecided"
+        if row[0].startswith("mismatch") and row[-1] == "ok":
+            verdict = "real-diverges"
+            corp = [f[7:] for f in (c.get("features") or []) if f.startswith("corpus:")]
+            ctx.finding(("corpus:" + corp[0]) if corp else "pipeline-vs-reference:real-exceeds-step-limit",
+                        "the real pipeline exceeds the step limit (and so does the model machine on the real bytecode) on a program the reference evaluator runs to completion",
+                        {"src": c["src"], "opts": c["opts"], "real": {k_: v for k_, v in c["run"].items() if k_ != "trace"}, "features": c.get("features")})
+        elif row[0] in ("oof",) or row[0].startswith("unsup"):
+            verdict = "reference-does-not-terminate-either"
+        slow_tally[verdict] = slow_tally.get(verdict, 0) + 1
+    tally["step-limit"] = slow_tally
     ctx.log("tally", json.dumps(tally))
     unsup_tags = {}
     for (c, d), row in zip(items, rows):
@@ -648,6 +678,76 @@ for a in [1, 2, 3]:
         if b == 6:
             break
         trace(a, b)
+"""),
+    ("exits-after-an-inner-loop-refer-to-the-outer-loop", ALLON, """
+def for_while():
+    out = []
+    for i in range(4):
+        n = i
+        while n > 0:
+            n -= 1
+            if n == 1:
+                continue
+        out.append(i)
+        if len(out) == 2:
+            break
+        else:
+            trace("fw", i)
+    return out
+def for_for():
+    out = []
+    for i in range(4):
+        for j in range(3):
+            if j == 1:
+                break
+        if i == 1:
+            continue
+        out.append((i, j))
+        if i == 2:
+            return out
+    return "end"
+def while_while():
+    out = []
+    i = 0
+    while i < 4:
+        i += 1
+        j = 0
+        while j < i:
+            j += 1
+            if j == 2:
+                break
+        if i == 2:
+            continue
+        else:
+            out.append((i, j))
+        if i == 3:
+            break
+    return out
+def while_for():
+    out = []
+    i = 0
+    while i < 3:
+        i += 1
+        for j in [1, 2]:
+            if j == i:
+                continue
+            out.append(j)
+        if i == 1:
+            continue
+        out.append("i%d" % 0 if False else i)
+        if i == 2:
+            return out
+    return out
+trace(for_while(), for_for(), while_while(), while_for())
+k = [3]
+while k[0] > 0:
+    k[0] -= 1
+    for q in [1, 2]:
+        if q == 2:
+            break
+    if k[0] == 1:
+        continue
+    trace("top", k[0], q)
 """),
     ("iterators-released-after-loops", ALLOFF, """
 def f(l):
